@@ -93,6 +93,9 @@ Definition is_abs (cs : path) : bool :=
   match cs with c :: _ :: _ => is_nil c | _ => false end.
 Definition absolutize (cwd cs : path) : path := if is_abs cs then cs else cwd ++ cs.
 
+(* os.path.join(prefix, p): an absolute second argument discards the first *)
+Definition pjoin (prefix p : path) : path := if is_abs p then p else prefix ++ p.
+
 (* os.path.normpath on an absolute path, as a component list from the root *)
 Fixpoint lexnorm_aux (acc cs : path) : path :=
   match cs with
@@ -455,7 +458,7 @@ Definition analyze_view (hint : list path) (w : node) (cwd prefix : path) (lk : 
   let keep := filter (fun e => path_mem e ks) existing in
   let new := filter (fun k => negb (path_mem k keep)) ks in
   let upd := filter (fun p => match alookup (join_sep p) lk with
-                              | Some tgt => negb (path_eqb (realpath w cwd (prefix ++ p)) tgt)
+                              | Some tgt => negb (path_eqb (realpath w cwd (pjoin prefix p)) tgt)
                               | None => false
                               end) keep in
   {| a_obsolete := obsolete; a_update := order_by hint upd; a_new := order_by hint new |}.
@@ -465,10 +468,10 @@ Fixpoint remove_obsolete (s : st) (cwd prefix : path) (l : list path) : res :=
   match l with
   | [] => ok s
   | p :: l' =>
-      match unlink s cwd (prefix ++ p) with
+      match unlink s cwd (pjoin prefix p) with
       | (s', None) => remove_obsolete s' cwd prefix l'
       | (s', Some _) =>
-          match rmdir s' cwd (prefix ++ p) with
+          match rmdir s' cwd (pjoin prefix p) with
           | (s2, None) => remove_obsolete s2 cwd prefix l'
           | r => r
           end
@@ -478,14 +481,14 @@ Fixpoint remove_obsolete (s : st) (cwd prefix : path) (l : list path) : res :=
 Fixpoint unlink_all (s : st) (cwd prefix : path) (l : list path) : res :=
   match l with
   | [] => ok s
-  | p :: l' => match unlink s cwd (prefix ++ p) with
+  | p :: l' => match unlink s cwd (pjoin prefix p) with
                | (s', None) => unlink_all s' cwd prefix l'
                | r => r
                end
   end.
 
 Definition link_target (cwd prefix p tgt : path) : str :=
-  join_sep (relpath tgt (absolutize cwd (dirname (prefix ++ p)))).
+  join_sep (relpath tgt (absolutize cwd (dirname (pjoin prefix p)))).
 
 Fixpoint link_all (s : st) (cwd prefix : path) (lk : links) (l : list path) : res :=
   match l with
@@ -494,7 +497,7 @@ Fixpoint link_all (s : st) (cwd prefix : path) (lk : links) (l : list path) : re
       match alookup (join_sep p) lk with
       | None => fail s EOS     (* KeyError cannot happen: p is a key of lk *)
       | Some tgt =>
-          match make_link s cwd (link_target cwd prefix p tgt) (prefix ++ p) with
+          match make_link s cwd (link_target cwd prefix p tgt) (pjoin prefix p) with
           | (s', None) => link_all s' cwd prefix lk l'
           | r => r
           end
